@@ -174,6 +174,8 @@ Plan genBuild(const std::string& prop, int tier, uint64_t batchSeed, uint64_t id
         if (r.chance(1, 6))
             op.set("via", 1);  // the content arrives by copy assignment from a sibling object
         if (r.chance(1, 8))
+            op.set("alias", static_cast<int64_t>(1 + r.below(2)));  // setData fed with the object's own getter views (world_build.cpp)
+        if (r.chance(1, 8))
             op.set("near", 1).set("nearpos", r.chance(1, 4) ? -1 : static_cast<int64_t>(r.below(1200))).set("nearx", 1 + static_cast<int64_t>(r.below(255)));
         if (r.chance(1, 2) || prevN[oi] < 0)
             op.set("hdr", 1).set("hseed", static_cast<int64_t>(r.next() >> 1));
@@ -309,7 +311,8 @@ Plan genStatus(const std::string& prop, int tier, uint64_t batchSeed, uint64_t i
     Rng& r = g.rng;
     g.cfg().set("rx", 1).set("status", 1);
     const bool many = r.chance(1, 8);  // beyond the small alphabets: vector growth / reallocation inside the tracker
-    const size_t nDev = many ? 5 + r.below(20) : 2 + r.below(3);
+    const bool huge = many && r.chance(1, 4);  // past every plausible fixed capacity (16, 32, 64 devices / interfaces per device)
+    const size_t nDev = huge ? 33 + r.below(48) : many ? 5 + r.below(20) : 2 + r.below(3);
     std::vector<int> devs;
     {
         std::set<int> s;
@@ -320,9 +323,9 @@ Plan genStatus(const std::string& prop, int tier, uint64_t batchSeed, uint64_t i
     std::vector<int64_t> ifs;
     {
         std::set<int64_t> s;
-        size_t ni = many ? 4 + r.below(10) : r.below(4);
+        size_t ni = huge ? 17 + r.below(50) : many ? 4 + r.below(10) : r.below(4);
         while (s.size() < ni)
-            s.insert(many ? static_cast<int64_t>(r.below(64)) : r.pick<int64_t>({0, 1, 2, 0x10, 0x20, 0xFFFFFFFF, 0x01000000}));
+            s.insert(many ? static_cast<int64_t>(r.below(huge ? 300 : 64)) : r.pick<int64_t>({0, 1, 2, 0x10, 0x20, 0xFFFFFFFF, 0x01000000}));
         ifs.assign(s.begin(), s.end());
     }
     for (size_t i = 0; i < nDev; ++i)
@@ -344,6 +347,23 @@ Plan genStatus(const std::string& prop, int tier, uint64_t batchSeed, uint64_t i
             Item m("m");
             m.set("kind", wire::K_CMSTAT).set("len", static_cast<int64_t>(minLenOf(wire::K_CMSTAT)) + r.range(0, 20)).set("id", g.msgId()).set("ts", static_cast<int64_t>(di));
             op.sub.push_back(std::move(m));
+        }
+    }
+    if (huge && !ifs.empty())
+    {
+        // ... and one of them reports every interface of the alphabet: 17..66 interfaces under one device
+        const size_t di = r.below(nDev > 1 ? nDev - 1 : 1);
+        for (size_t k = 0; k < ifs.size(); k += 4)
+        {
+            Item& op = g.addOp(OP_ENC, static_cast<int>(di + 1), 1);
+            op.set("min", 0).set("max", 1500).set("ver", 1).set("mode", static_cast<int64_t>(r.below(4)));
+            for (size_t q = k; q < ifs.size() && q < k + 4; ++q)
+            {
+                Item m("m");
+                m.set("kind", wire::K_IFSTAT).set("len", static_cast<int64_t>(minLenOf(wire::K_IFSTAT)) + r.range(0, 12)).set("pifid", ifs[q]);
+                m.set("id", g.msgId()).set("ts", static_cast<int64_t>(q)).set("ifid", static_cast<int64_t>(r.below(1000))).set("flags", 0);
+                op.sub.push_back(std::move(m));
+            }
         }
     }
     for (size_t o = 0; o < nOps; ++o)
